@@ -451,6 +451,20 @@ def gen_final(rng, thorough):
     return out
 
 
+def gen_last(rng, thorough):
+    """(a) the real mapping.BaseMappingHandler.handleConnection: closed by the peer's notification / finished normally, the tunnel
+    conn and stream it dialled must be closed and the tunnel read released; (b) iocopy.UDP with a tunnel whose Write is refused
+    once (transient) or from then on (sticky) while a timed flush is due: nothing may be lost silently"""
+    out = [{"mode": "maphandle", "pre": 0}, {"mode": "maphandle", "pre": 1}]
+    for sticky in ([False, True, False] if not thorough else [False, True] * 4):
+        ds = [rand_bytes(rng, rng.choice([1, 2, 9, 300])) for _ in range(rng.randrange(2, 5))]
+        out.append({"mode": "udp", "dgrams": [d.hex() for d in ds], "uend": 0, "uwfail": -1,
+                    "pauseat": rng.choice([len(ds), len(ds), len(ds) - 1]),
+                    "tunnel": {"data": "", "cuts": [], "end": 0, "wd": False, "wlimit": -1, "gate": -1, "wrap": 0,
+                               "wfailat": 1, "wfailsticky": sticky}})
+    return out
+
+
 def corpus():
     d = os.path.join(vlib.VERIF, "corpus", "C12")
     out = []
@@ -521,7 +535,7 @@ def model_values(c, o, rng):
             vals.append(("deframe", deframe_value(o.get("stream", ""), c["tunnel"], None, o["u2"])))
     elif c["mode"] == "udp":
         u = o["u1"]
-        if c["tunnel"].get("wlimit", -1) < 0:
+        if c["tunnel"].get("wlimit", -1) < 0 and not c["tunnel"].get("wfailat"):
             vals.append(("encode", encode_value(c["dgrams"], u, c.get("uend", 0))))
         vals.append(("deframe", deframe_value(c["tunnel"]["data"], c["tunnel"], c.get("uwfail", -1), u)))
     elif c["mode"] == "tcp":
@@ -548,6 +562,8 @@ def describe(c):
     if c["mode"] == "rt":
         return "rt dgram sizes %s cut=%s cuts=%s end=%s wd=%s" % ([len(x) // 2 for x in c["dgrams"]][:12], c.get("cut"),
                                                                  (c["tunnel"].get("cuts") or [])[:8], c["tunnel"].get("end"), c["tunnel"].get("wd"))
+    if c["mode"] == "maphandle":
+        return "maphandle variant %s (0 = closed by peer notification, 1 = normal finish)" % c.get("pre")
     if c["mode"] == "tunpeer":
         return "tunpeer %s tunnel, idle local application, half-closable=%s" % (c.get("proto"), c.get("pre") == 1)
     if c["mode"] == "poolprobe":
@@ -603,6 +619,7 @@ def run(ctx, only_cases=None):
         cases += gen_udptc(rng, 300 if thorough else 45)
         cases += gen_round7(rng, thorough)
         cases += gen_final(rng, thorough)
+        cases += gen_last(rng, thorough)
     outs = run_batch(binary, cases)
 
     # (iii) the property's predicate, evaluated by the harness on the real relays' own outputs
@@ -689,6 +706,8 @@ def run(ctx, only_cases=None):
             dist["end_with_last_chunk"] += 1 if c["tunnel"].get("wd") else 0
             if u2.get("n_delivered", 0) >= 1 and c.get("cut", -1) >= 0:
                 nontrivial.add(h)
+        elif c["mode"] == "maphandle":
+            dist["mapping_handle_connection"] = dist.get("mapping_handle_connection", 0) + 1
         elif c["mode"] == "tunpeer":
             dist["tunnel_peer_closed_idle_local"] += 1
         elif c["mode"] == "poolprobe":
@@ -724,6 +743,7 @@ def run(ctx, only_cases=None):
         elif c["mode"] == "udp":
             dist["udp_raw_malformed"] += 1
             dist["udp_write_fault"] += 1 if c.get("uwfail", -1) >= 0 else 0
+            dist["udp_tunnel_write_refused"] = dist.get("udp_tunnel_write_refused", 0) + (1 if c["tunnel"].get("wfailat") else 0)
             if c["tunnel"].get("gate", -1) >= 0:
                 dist["udp_tunnel_gate"] += 1
                 dist["udp_gated_tunnel_wrap"][str(c["tunnel"].get("wrap", 0))] += 1
